@@ -83,6 +83,16 @@ def cases(tier):
                             for et in (1e-1, 1e-3, 1e3):
                                 for ct in (0.5, 0.05, 1e3):
                                     yield {'kind': 'adaptive', 'dims': dims, 'sm': sm, 'solver': solver, 'nz': nz, 'te': te, 's1': s1, 'et': et, 'ct': ct}
+            # the remaining controller parameters (bounds on the step, growth and safety factors, stopping by closeness), at two base
+            # points: a lenient one whose steps are accepted and grow, and a strict one with rejections
+            for et, ct, s1 in ((1e3, 1e3, 1.0), (1e-3, 0.05, 1.0)):
+                for smin in (1e-14, 0.3):
+                    for smax in (10, 0.05):
+                        for cmin in (1e-3, 10.0):
+                            for fmax in (2, 10):
+                                for fsafe in (0.9, 0.5):
+                                    yield {'kind': 'adaptive', 'dims': dims, 'sm': sm, 'solver': 'solve', 'nz': 1, 'te': 3.0, 's1': s1, 'et': et, 'ct': ct,
+                                           'ctl': {'step_size_min': smin, 'step_size_max': smax, 'closeness_min': cmin, 'factor_max': fmax, 'factor_safe': fsafe}}
 
 
 def make_op(rng, dims, ro, fam):
@@ -372,7 +382,7 @@ def run_adaptive(case, r, rng):
         with r.op('adaptive:call'):
             sol, ts = ode.adaptive_step_size(op, x0t, guess, case['te'], step_size_first=case['s1'], repeats=1, solver=case['solver'],
                                              error_tol=case['et'], closeness_tol=case['ct'], second_method=case['sm'],
-                                             normalize=case['nz'], progress=False)
+                                             normalize=case['nz'], progress=False, **case.get('ctl', {}))
             per = 3 if case['sm'] == 'two_step_Euler' else 2
             iters = calls['n'] // per
             acc = len(ts) - 1
